@@ -843,3 +843,8 @@ mod tests {
         QuickCheck::new().tests(10).quickcheck(prop as fn(_))
     }
 }
+
+#[cfg(kani)]
+pub(crate) mod verif {
+    include!(concat!(env!("LIBP2P_VERIF"), "/hooks/kad_query_closest.rs"));
+}
